@@ -3,7 +3,7 @@ package ackhandler
 //vx:pkg github.com/refraction-networking/uquic/internal/ackhandler
 //vx:entry Harness_C14_amplification
 //vx:param quick steps=4
-//vx:param thorough steps=6
+//vx:param thorough steps=5
 //vx:reach Harness_C14_amplification C14.limited C14.sent C14.validated C14.timer-cancelled C14.zero-rtt
 
 import (
